@@ -235,6 +235,7 @@ func checkImports(r *core.Run, voc *Vocab, graphs []graph, cases map[string]*Cas
 		rng := rand.New(rand.NewSource(r.Seed*7919 + int64(i)))
 		w := &gw{g: g, c: c, style: randStyle(rng)}
 		w.style.Group = true
+		w.style.Noise = false
 		w.files = voc.renderGraph(g, w.style)
 		w.dir = filepath.Join(r.Scratch, fmt.Sprintf("imp%d", i))
 		core.WriteTree(w.dir, w.files)
